@@ -191,7 +191,13 @@ class RealAtomicWrite(AtomicWrite):
         file_handle = self.open_for_write_in_exclusive_and_create_mode(path)
         try:
             try:
-                os.write(file_handle, content)
+                # os.write may take only a part of the content (disk nearly
+                # full, file size limit): go on until all of it is written
+                # or the error shows up
+                remaining = content
+                while remaining:
+                    written = os.write(file_handle, remaining)
+                    remaining = remaining[written:]
             finally:
                 os.close(file_handle)
         except (IOError, OSError):
